@@ -419,6 +419,21 @@ def gen_location(rng, L, parent=None, allow_empty=True, allow_overlap=True):
         if allow_overlap and rng.random() < 0.15 and len(starts) > 1:
             i = rng.randrange(1, len(starts))
             starts[i] = max(starts[i - 1], ends[i - 1] - rng.randint(1, 3))
+        if allow_overlap and rng.random() < 0.12:
+            # nested blocks / blocks sharing a start or an end: the last block in sorted order is then not the one
+            # that reaches furthest (span arithmetic, reverse(), merge_overlapping() depend on that)
+            i = rng.randrange(len(starts))
+            kind = rng.choice(["nested", "same_start", "same_end"])
+            if ends[i] - starts[i] >= 2:
+                if kind == "nested":
+                    a = rng.randint(starts[i], ends[i] - 1)
+                    nb_ = (a, rng.randint(a + 1, ends[i]))
+                elif kind == "same_start":
+                    nb_ = (starts[i], rng.randint(starts[i] + 1, ends[i] - 1))
+                else:
+                    nb_ = (rng.randint(starts[i] + 1, ends[i] - 1), ends[i])
+                starts.append(nb_[0])
+                ends.append(nb_[1])
         if rng.random() < 0.1:
             i = rng.randrange(len(starts))
             ends[i] = starts[i]  # empty block
